@@ -256,55 +256,48 @@ example : validUtf8 [0x61, 0xC3, 0xA9] ∧ lastV (.sc (.str [0x61, 0xC3, 0xA9]))
 
 /-! ## slice follows Twig's index rules -/
 
+theorem inInt64_of_bounds (i : Int) (h1 : -(2 ^ 63) ≤ i) (h2 : i < 2 ^ 63) : inInt64 i = true := by
+  unfold inInt64 int64Min int64Max
+  simp only [Bool.and_eq_true, decide_eq_true_eq]
+  omega
+
+theorem lt_of_inInt64 (i : Int) (h : inInt64 i = true) : i < 2 ^ 63 := by
+  unfold inInt64 int64Min int64Max at h
+  simp only [Bool.and_eq_true, decide_eq_true_eq] at h
+  omega
+
 /-- filterSlice's index arithmetic IS Twig's slice — for every list, every start, every optional length
     (Go ints read as unbounded integers) -/
 theorem C19_slice_spec {α : Type} (xs : List α) (start : Int) (len : Option Int) :
     Slice.goSlice xs start len = Slice.specSlice xs start len := Slice.goSlice_eq_spec xs start len
 
-/-- FULL-STRENGTH statement for the code with 64-bit ints: it fails (see the counterexample) -/
-def SliceTotal : Prop :=
-  ∀ (xs : List Nat) (start : Int) (len : Option Int), Slice.goSlice64 xs start len = some (Slice.specSlice xs start len)
+/-- FULL STRENGTH, for the code as it runs with 64-bit ints (`end = start + length` may wrap; the guard
+    `end > count || end < start` catches it): every list a Go program can hold, every 64-bit start and
+    optional length.  (Before 27a7ba4 the wrap made `v[start:end]` panic.) -/
+theorem C19_slice_total {α : Type} (xs : List α) (start : Int) (len : Option Int)
+    (hn : (xs.length : Int) < 2 ^ 63) (hl : ∀ l, len = some l → inInt64 l = true) :
+    Slice.goSlice64 xs start len = Slice.specSlice xs start len := by
+  apply Slice.goSlice64_eq_spec xs start len hn
+  intro l h
+  exact lt_of_inInt64 l (hl l h)
 
-/-- what holds: everywhere except where `start + length` reaches 2^63 -/
-theorem C19_slice_spec_partial {α : Type} (xs : List α) (start : Int) (len : Option Int)
-    (h : Slice.overflows xs.length start len = false) :
-    Slice.goSlice64 xs start len = some (Slice.specSlice xs start len) := by
-  unfold Slice.goSlice64; rw [h]; simp [Slice.goSlice_eq_spec]
-
-/-- RECORDED FINDING: `'hello'|slice(1, 9223372036854775807)` — the sum wraps, the Go code panics
-    (`slice bounds out of range [:-9223372036854775808]`) -/
-theorem C19_slice_counterexample :
-    Slice.goSlice64 [104, 101, 108, 108, 111] 1 (some (2 ^ 63 - 1)) = none ∧
-    Slice.specSlice [104, 101, 108, 108, 111] 1 (some (2 ^ 63 - 1)) = [101, 108, 108, 111] := by decide
-
-theorem C19_slice_not_total : ¬ SliceTotal := by
-  intro h
-  have := h [104, 101, 108, 108, 111] 1 (some (2 ^ 63 - 1))
-  rw [C19_slice_counterexample.1] at this
-  exact absurd this (by simp)
-
-/-- the exclusion is not vacuous and is narrow: every length below 2^62 on every sequence shorter than
-    2^62 is inside -/
-theorem C19_slice_partial_covers (n start l : Int) (hn : 0 ≤ n) (hn2 : n < 2 ^ 62) (hl : l < 2 ^ 62) :
-    Slice.overflows n start (some l) = false := by
-  unfold Slice.overflows
-  have := Slice.normStart_nonneg n start
-  simp only [decide_eq_false_iff_not, not_and, Int.not_le]
-  intro _ h2
-  omega
+/-- pinned regression (the former counterexample): `'hello'|slice(1, 9223372036854775807)` is "ello" -/
+example : Slice.goSlice64 [104, 101, 108, 108, 111] 1 (some (2 ^ 63 - 1)) = [101, 108, 108, 111] := by decide
+example : sliceV (.sc (.str [104, 101, 108, 108, 111])) [.sc (.int 2), .sc (.int (2 ^ 63 - 1))]
+    = .ok (.sc (.str [108, 108, 111])) := by decide
 
 /-- the filter: slicing a list gives the list of the sliced elements; slicing a string gives a string
     whose characters are the sliced characters — in both cases `items` of the result is Twig's slice of
     `items` of the input (so `length`, `first`, `last` and `for` all see the same elements) -/
 theorem C19_slice_items (v : Val) (hv : (∃ s, v = .sc (.str s)) ∨ ∃ ty arr xs, v = .list ty arr xs)
-    (start : Int) (len : Option Int)
-    (hno : Slice.overflows (items v).length start len = false) :
+    (start : Int) (len : Option Int) (hs : inInt64 start = true) (hl : ∀ l, len = some l → inInt64 l = true)
+    (hn : ((items v).length : Int) < 2 ^ 63) :
     ∃ w, sliceV v (.sc (.int start) :: (match len with | some l => [.sc (.int l)] | none => [])) = .ok w ∧
       items w = Slice.specSlice (items v) start len := by
   rcases hv with ⟨s, rfl⟩ | ⟨ty, arr, xs, rfl⟩
   · have hlen : (items (.sc (.str s))).length = (decodeRunes s).length := by simp [items]
-    rw [hlen] at hno
-    have hgo := C19_slice_spec_partial (decodeRunes s) start len hno
+    rw [hlen] at hn
+    have hgo := C19_slice_total (decodeRunes s) start len hn hl
     have hvalid : ∀ r ∈ Slice.specSlice (decodeRunes s) start len, validScalar r := by
       intro r hr
       apply decodeRunes_valid s r
@@ -316,17 +309,17 @@ theorem C19_slice_items (v : Val) (hv : (∃ s, v = .sc (.str s)) ∨ ∃ ty arr
         split at hr <;> exact List.mem_of_mem_drop (List.mem_of_mem_take hr)
     refine ⟨.sc (.str (encodeRunes (Slice.specSlice (decodeRunes s) start len))), ?_, ?_⟩
     · cases len with
-      | none => simp [sliceV, toIntArg, pure, Except.pure, hgo]
-      | some l => simp [sliceV, toIntArg, pure, Except.pure, Except.map, hgo]
+      | none => simp [sliceV, toIntArg, pure, Except.pure, hs, hgo]
+      | some l => simp [sliceV, toIntArg, pure, Except.pure, Except.map, hs, hl l rfl, hgo]
     · simp only [items]
       rw [decodeRunes_encodeRunes _ hvalid, Slice.specSlice_map]
   · have hlen : (items (.list ty arr xs)).length = xs.length := rfl
-    rw [hlen] at hno
-    have hgo := C19_slice_spec_partial xs start len hno
+    rw [hlen] at hn
+    have hgo := C19_slice_total xs start len hn hl
     refine ⟨.list ty false (Slice.specSlice xs start len), ?_, rfl⟩
     cases len with
-    | none => simp [sliceV, toIntArg, pure, Except.pure, hgo]
-    | some l => simp [sliceV, toIntArg, pure, Except.pure, Except.map, hgo]
+    | none => simp [sliceV, toIntArg, pure, Except.pure, hs, hgo]
+    | some l => simp [sliceV, toIntArg, pure, Except.pure, Except.map, hs, hl l rfl, hgo]
 
 /-- the pinned-tree defect (omitted length read as -1) and the index rules on examples -/
 example : sliceV (.sc (.str [104, 101, 108, 108, 111])) [.sc (.int 1)] = .ok (.sc (.str [101, 108, 108, 111])) := by decide
@@ -489,8 +482,9 @@ example : keysV (.map .any [([98], .int 1), ([97], .int 2), ([49, 48], .null)])
 /-! ## abs, round, number_format agree with exact decimal arithmetic
 
   A number is `±m/10^k`.  SPEC: `specRound m k p` is the magnitude of `round(x·10^p)` in exact decimal
-  arithmetic, ties away from zero (PHP/Twig `round`, Go `math.Round`); the sign is kept.  `goRoundN` /
-  `goFixedN` are what the Go code computes in binary64 (TwigModel.Filters.Num). -/
+  arithmetic, ties away from zero (PHP/Twig `round`, Go `math.Round`); the sign is kept.  `goRoundN` is
+  the digit-string arithmetic of `roundDecimal` (filterRound), `goFixedN` what `%.nf` computes in binary64
+  (filterNumberFormat) — TwigModel.Filters.Num. -/
 
 open Num
 
@@ -529,65 +523,73 @@ example : absV (.sc (.dec true 25 1)) = .ok (.sc (.dec false 25 1)) ∧ (Scalar.
 example : absV (.sc (.int (-9007199254740992))) = .ok (.sc (.dec false 9007199254740992 0)) := by decide
 example : absV (.sc (.str [45, 49, 50, 46, 53])) = .ok (.sc (.dec false 125 1)) := by decide   -- "-12.5"
 
-/-- FULL-STRENGTH statements: the Go code (as modelled) computes the exact decimal rounding.  Both fail. -/
+/-- FULL-STRENGTH statements: the Go code (as modelled) computes the exact decimal rounding.
+    `RoundExact` holds (C19_round_exact); `NumberFormatExact` fails on decimal ties. -/
 def RoundExact : Prop := ∀ m k p, goRoundN m k p = specRound m k p
 def NumberFormatExact : Prop := ∀ m k d, goFixedN m k d = specRound m k d
 
-/-- a decimal exactly half-way between two results at a precision that needs a multiplication: the
-    class on which binary64 decides the outcome -/
+/-- a decimal exactly half-way between two results: the class on which `%.nf` (binary64) decides -/
 def decimalTie (m k p : Nat) : Bool := decide (p < k) && isTie m (10 ^ (k - p))
 
-/-- round: exact everywhere except on decimal ties at precision ≥ 1 -/
-theorem C19_round_exact_partial (m k p : Nat) (h : (decimalTie m k p && p != 0) = false) :
-    goRoundN m k p = specRound m k p := by
-  unfold goRoundN specRound
-  split
-  · rfl
-  · rename_i hk
-    have hpk : p < k := by omega
-    simp only [decimalTie, hpk, decide_true, Bool.true_and] at h
-    simp only []
-    split
-    · rename_i hc
-      simp only [Bool.and_eq_true] at hc
-      rw [hc.1.1, hc.1.2] at h; simp at h
-    · rfl
+theorem specRound_eq_specMode (m k p : Nat) : specRound m k p = specMode .common false m k p := rfl
 
-/-- ... and also on those ties when the decimal happens to be a binary fraction (0.125, 0.375, …) -/
-theorem C19_round_exact_dyadic (m k p : Nat) (h : flCmp m k = .eq) : goRoundN m k p = specRound m k p := by
-  unfold goRoundN specRound
-  split
-  · rfl
-  · simp [h]
+/-- round (method common) IS exact decimal rounding, ties away from zero: for every decimal `m/10^k` and
+    every precision `p ≥ 0`.  filterRound works on the digit string of the shortest decimal
+    representation (`roundDecimal`); `goRoundN` is that digit arithmetic (`roundCore`: cut, look at the
+    first dropped digit, increment with carry), proved equal to the numeric spec. -/
+theorem C19_round_exact : RoundExact := fun m k p => goRoundModeN_eq_spec .common false m k p
 
-/-- precision 0 (the default) is always exact: ties go away from zero -/
-theorem C19_round_exact_p0 (m k : Nat) : goRoundN m k 0 = specRound m k 0 :=
-  C19_round_exact_partial m k 0 (by simp)
+/-- the same for the methods ceil ('u', towards +∞) and floor ('d', towards −∞), with the sign -/
+theorem C19_round_mode_exact (mode : Mode) (neg : Bool) (m k p : Nat) :
+    goRoundModeN mode neg m k p = specMode mode neg m k p := goRoundModeN_eq_spec mode neg m k p
 
-/-- RECORDED FINDING: `1.005|round(2)` is 1 (the double below 1.005 times 100 is 100.49999999999999);
-    exact decimal arithmetic — and Twig — give 1.01 -/
-theorem C19_round_counterexample : goRoundN 1005 3 2 = 100 ∧ specRound 1005 3 2 = 101 := by decide +kernel
+/-- what the three modes mean on magnitudes when digits are dropped (`d = 10^(k-p)`):
+    common = nearest, ties up; up = ceiling of the signed value; down = floor of the signed value -/
+theorem specModeDiv_meaning (neg : Bool) (m d : Nat) (hd : 0 < d) :
+    specModeDiv .common neg m d = specRoundDiv m d ∧
+    (d * specModeDiv .up false m d ≥ m ∧ d * specModeDiv .up false m d < m + d) ∧      -- ceil(+x)
+    (d * specModeDiv .up true m d ≤ m ∧ m < d * specModeDiv .up true m d + d) ∧        -- ceil(−x) = −floor(x)
+    (d * specModeDiv .down false m d ≤ m ∧ m < d * specModeDiv .down false m d + d) ∧  -- floor(+x)
+    (d * specModeDiv .down true m d ≥ m ∧ d * specModeDiv .down true m d < m + d) := by -- floor(−x) = −ceil(x)
+  have hm := Nat.div_add_mod m d
+  have hr := Nat.mod_lt m hd
+  simp only [specModeDiv, Bool.not_false, Bool.true_and, Bool.not_true, Bool.false_and, Bool.false_eq_true,
+    if_false, Nat.add_zero, true_and]
+  generalize m / d = q at *
+  generalize m % d = r at *
+  have e : d * (q + 1) = d * q + d := by grind
+  refine ⟨?_, ?_, ?_, ?_⟩
+  · by_cases h : r = 0
+    · subst h; simp; omega
+    · simp [h]; rw [e]; omega
+  · omega
+  · omega
+  · by_cases h : r = 0
+    · subst h; simp; omega
+    · simp [h]; rw [e]; omega
 
-theorem C19_round_not_exact : ¬ RoundExact := by
-  intro h; have := h 1005 3 2
-  rw [C19_round_counterexample.1, C19_round_counterexample.2] at this
-  exact absurd this (by decide)
+/-- pinned regressions (the former counterexamples): `1.005|round(2)` = 1.01, `0.145|round(2)` = 0.15,
+    `1.1|round(2,'ceil')` = 1.1, `(-1.1)|round(2,'floor')` = −1.1, `(-0.04)|round(1)` = 0 without a sign -/
+example : goRoundN 1005 3 2 = 101 ∧ goRoundN 145 3 2 = 15 := by decide
+example : roundV (.sc (.dec false 11 1)) [.sc (.int 2), .sc (.str [99, 101, 105, 108])] = .ok (.sc (.dec false 110 2)) := by decide
+example : roundV (.sc (.dec true 11 1)) [.sc (.int 2), .sc (.str [102, 108, 111, 111, 114])] = .ok (.sc (.dec true 110 2)) := by decide
+example : roundV (.sc (.dec true 111 2)) [.sc (.int 1), .sc (.str [70, 76, 79, 79, 82])] = .ok (.sc (.dec true 12 1)) := by decide   -- FLOOR(-1.11, 1) = -1.2
+example : roundV (.sc (.dec true 4 2)) [.sc (.int 1)] = .ok (.sc (.dec false 0 1)) := by decide
+example : roundV (.sc (.dec false 9995 1)) [] = .ok (.sc (.int 1000)) := by decide          -- carry through 999
+example : roundV (.sc (.dec true 25 1)) [] = .ok (.sc (.int (-3))) := by decide            -- -2.5 → -3
+example : roundV (.sc (.dec false 125 3)) [.sc (.int 2)] = .ok (.sc (.dec false 13 2)) := by decide   -- 0.125 → 0.13
 
-/-- the filter, on the grid: the sign is kept, precision 0 gives an int -/
-theorem C19_round_filter (neg : Bool) (m k p : Nat) (hp : 0 < p) (hp2 : p ≤ 15) (hx : exactFloat m k = true)
-    (hn : goRoundN m k p < 10 ^ 15) :
-    roundV (.sc (.dec neg m k)) [.sc (.int p)] = .ok (.sc (.dec neg (goRoundN m k p) p)) := by
+/-- the filter on the grid: sign kept unless the result is zero, precision 0 gives an int -/
+theorem C19_round_filter (neg : Bool) (m k p : Nat) (hp : 0 < p) (hp2 : p ≤ 400) (hx : exactFloat m k = true)
+    (hres : exactFloat (stripZeros (specRound m k p) p).1 (stripZeros (specRound m k p) p).2 = true) :
+    roundV (.sc (.dec neg m k)) [.sc (.int p)] =
+      .ok (.sc (.dec (neg && specRound m k p != 0) (specRound m k p) p)) := by
+  have e : goRoundModeN .common (neg && m != 0) m k p = specRound m k p := goRoundModeN_eq_spec _ _ _ _ _
   have h1 : ¬ ((p : Int) < 0) := by omega
-  have h2 : ¬ ((p : Int) > 15) := by omega
-  have h3 : ¬ (goRoundN m k p ≥ 10 ^ 15) := by omega
-  have h4 : ((p : Int) != 0) = true := by simp; omega
+  have h2 : ¬ ((p : Int) > 400) := by omega
   have h5 : ((p : Int) == 0) = false := by simp; omega
-  simp [roundV, toFloatArg, optIntArg, toIntArg, pure, Except.pure, hx, h1, h2, h3, h4, h5]
-
-example : roundV (.sc (.dec true 25 1)) [] = .ok (.sc (.int (-3))) := by decide          -- -2.5 → -3
-example : roundV (.sc (.dec false 125 3)) [.sc (.int 2)] = .ok (.sc (.dec false 13 2)) := by decide +kernel   -- 0.125 → 0.13
-example : roundV (.sc (.dec false 12345 3)) [.sc (.int 1)] = .ok (.sc (.dec false 123 1)) := by decide
-example : (decimalTie 1005 3 2 && (2 : Nat) != 0) = true ∧ (decimalTie 12345 3 1 && (1 : Nat) != 0) = false := by decide
+  have hin : inInt64 (p : Int) = true := inInt64_of_bounds _ (by omega) (by omega)
+  simp [roundV, roundMode, toFloatArg, optIntArg, toIntArg, pure, Except.pure, hx, h1, h2, h5, hin, e, hres]
 
 /-- number_format: exact everywhere except on decimal ties (at ANY precision, 0 included: `%.0f`
     rounds the binary value half-to-even) -/
@@ -614,26 +616,25 @@ theorem C19_number_format_not_exact : ¬ NumberFormatExact := by
   rw [C19_number_format_counterexample.1, C19_number_format_counterexample.2.1] at this
   exact absurd this (by decide)
 
-/-- RECORDED FINDING: number_format of a negative number that rounds to zero keeps the sign:
-    `(-0.4)|number_format` is "-0" (exact decimal arithmetic: 0).  (`round` has the same float result,
-    -0.0, but every printer of the fixed tree writes it as `0`.) -/
-theorem C19_negative_zero_counterexample :
-    numberFormatV (.sc (.dec true 4 1)) [] = .ok (.sc (.str [45, 48])) ∧
-    (match roundV (.sc (.dec true 4 2)) [.sc (.int 1)] with | .ok (.sc x) => x.toStr | _ => []) = [48] := by decide
+/-- pinned regression (the former negative-zero finding, fixed by b1bd43d): `(-0.4)|number_format` is "0" -/
+example : numberFormatV (.sc (.dec true 4 1)) [] = .ok (.sc (.str [48])) := by decide
+example : numberFormatV (.sc (.dec true 4 2)) [.sc (.int 1)] = .ok (.sc (.str [48, 46, 48])) := by decide
 
-/-- number_format: with the sign, for every input outside the two recorded classes the printed digits
+/-- number_format: with the sign (dropped when the result is zero), for every input outside the recorded tie class the printed digits
     are those of the exact decimal rounding (`fixedParts (specRound …)`), grouped by `goGroup` -/
 theorem C19_number_format_filter (neg : Bool) (m k d : Nat) (dp sep : Bytes) (hx : exactFloat m k = true)
-    (hn : goFixedN m k d < 10 ^ 15) (hsep : sep ≠ []) (hd : 0 < d) (htie : decimalTie m k d = false) :
+    (hn : goFixedN m k d < 10 ^ 15) (hsep : sep ≠ []) (hd : 0 < d) (hd2 : d < 2 ^ 63)
+    (htie : decimalTie m k d = false) :
     numberFormatV (.sc (.dec neg m k)) [.sc (.int d), .sc (.str dp), .sc (.str sep)] =
-      .ok (.sc (.str ((if neg then [45] else []) ++ goGroup sep (fixedParts (specRound m k d) d).1 ++
+      .ok (.sc (.str ((if neg && specRound m k d != 0 then [45] else []) ++ goGroup sep (fixedParts (specRound m k d) d).1 ++
         (dp ++ (fixedParts (specRound m k d) d).2)))) := by
   have e := C19_number_format_exact_partial m k d htie
   have h1 : ¬ ((d : Int) < 0) := by omega
   have h3 : ¬ (goFixedN m k d ≥ 10 ^ 15) := by omega
   have h4 : sep.isEmpty = false := by cases sep <;> simp_all
+  have hin : inInt64 (d : Int) = true := inInt64_of_bounds _ (by omega) (by omega)
   rw [e] at h3
-  simp [numberFormatV, toFloatArg, optIntArg, toIntArg, pure, Except.pure, hx, h1, h3, h4, e, hd]
+  simp [numberFormatV, toFloatArg, optIntArg, toIntArg, pure, Except.pure, hx, h1, h3, h4, e, hd, hin]
 
 /-! ### thousands separators -/
 
